@@ -88,7 +88,8 @@ class Checker(object):
                 viol.append(o)
         stale = [e for k, e in open_known.items() if k not in seen_keys]
 
-        rdir = os.path.join(VERIF, "replay")
+        outbase = os.environ.get("VERIF_OUT", VERIF)
+        rdir = os.path.join(outbase, "replay")
         os.makedirs(rdir, exist_ok=True)
         lines = []
         for o, e in known_hit:
@@ -142,7 +143,7 @@ class Checker(object):
             "wall_s": round(time.time() - self.t0, 3),
             "violations": len(viol),
         }
-        edir = os.path.join(VERIF, "evidence")
+        edir = os.path.join(outbase, "evidence")
         os.makedirs(edir, exist_ok=True)
         with open(os.path.join(edir, "%s.json" % self.pid), "w") as f:
             json.dump(ev, f, indent=1, sort_keys=True)
